@@ -3,7 +3,13 @@
 Reading (how the words of the property are taken; the oracle below implements exactly this)
 * "timeline positions": the integers first_point.t .. last_point.t of the part (the oracle judges
   these; the correspondence also compares a few positions before and after, where scipy answers
-  NaN / the last value).
+  NaN / the last value).  Every one of them is queried when the timeline has at most 160 positions (or the case
+  says probe=all); a longer timeline (divisions 96 .. 10080) is queried at every time point of the timeline and
+  its neighbours (+-2), one beat / one bar after 0, the middle of and a random point in every stretch, and 24
+  positions drawn from a generator seeded with the description (function `positions`).
+* everything the measure maps and the derived note-array columns return is a whole number of divisions and is
+  judged EXACTLY (Fraction arithmetic on the description), at every resolution: divisions 1..48, MIDI-like
+  96..10080, odd 5..35; only a bar that is not a whole number of divisions may be rounded either way.
 * "latest such element starting at or before t": the elements of that kind (and staff, for clefs)
   with the greatest start <= t; if several start at that same time any of them is accepted;
   "of the first one for positions before it": the elements with the smallest start.
@@ -53,7 +59,8 @@ from core import Eval
 
 PROPERTY = "C10"
 DRIVER = "drv_c10"
-PROPS = ["PartituraModel.Props.C10", "PartituraModel.Props.C10Part", "PartituraModel.Props.C10Timeline"]
+PROPS = ["PartituraModel.Props.C10", "PartituraModel.Props.C10Part", "PartituraModel.Props.C10Timeline",
+         "PartituraModel.Props.C10Exact"]
 TRUSTED = [
     "scipy.interpolate.interp1d(kind='previous', fill_value='extrapolate'): index = #{x_i <= q} clipped to 1..n, "
     "NaN below the first sample (modelled by lastLE; exercised at positions before the first sample)",
@@ -66,7 +73,10 @@ TRUSTED = [
     "are the rows the property builds - the independent oracle compares them with iter_all as multisets",
     "scipy.interpolate.interp1d(kind='linear') of the beat maps as modelled in Model/TimeMap.lean (property C02)",
     "NaN -> int64 conversion yields INT64_MIN on this platform (printed as `nan` on both sides)",
-    "binary64 arithmetic: the model is exact; divs_per_beat / beats_per_bar are compared within 1e-9; a case whose "
+    "binary64 arithmetic: the model is exact; that the float bar length beats_per_bar * divs_per_beat is within half a "
+    "division of the exact one is what pickup_start_noise_free needs (observed within 1e-9 relative by the `dpb` "
+    "comparison at every generated resolution, not proved about IEEE arithmetic); "
+    "divs_per_beat / beats_per_bar are compared within 1e-9; a case whose "
     "corrected start is within 1e-6 of a rounding tie, or whose `1 + beat_map(0)` is within 1e-9 of the end of the beat "
     "map's range, is not compared for the three measure maps (counted in the distribution)",
 ]
@@ -83,12 +93,21 @@ PARTIAL = [
     "histories: the Lean model is a function of the part description; that a history leaves exactly the simulated "
     "description is checked by the oracle (fresh build) and, for the timeline itself, is property C01",
     "agreement of the note-array columns with the maps is compared on the implementation, not proved",
+    "pickup_start_exact / pickup_maps_exact assume a part that starts simply (SimpleStart) with a bar of a whole number of "
+    "divisions; pickup_start_nearest covers the other bars up to the direction of rounding",
 ]
-RULE = ("two structured generators over abstract parts built through Part.add/set_quarter_duration: 'musical' "
+RULE = ("three structured generators over abstract parts built through Part.add/set_quarter_duration (quick: 75 + 75 "
+        "+ 300 cases): 'resolution' (divisions 96..10080, odd 5..35 and small ones; x/2 .. x/16 signatures; a pickup of an "
+        "arbitrary number of divs - tuplet fractions of the beat, one div, one div short of the bar, anything - followed by "
+        "1..8 bars, later signature and quarter-duration changes at bar lines, notes inside the pickup; 60% lean parts, the "
+        "others with keys, clefs and more notes; long timelines are probed at the positions listed in the Reading), "
+        "'musical' "
         "(tiling measures from a sequence of time signatures, optional pickup, irregular bars, late first signature/"
-        "key/clef, staves without clef, missing key mode, missing measure numbers, clefs without line) and 'adversarial' "
+        "key/clef, staves without clef, missing key mode, missing measure numbers, clefs without line; 30% of them at the "
+        "resolutions above) and 'adversarial' "
         "(elements at arbitrary integer times, gaps before the first element, no measures / one measure / gaps between "
-        "measures, coincident elements, malformed mode or clef sign, 0 beats); 40% of the cases continue with an edit "
+        "measures, coincident elements, malformed mode or clef sign, 0 beats); where a kind (and staff) has three or more "
+        "elements the piece mostly RETURNS to an earlier signature / clef (A B A); 40% of the cases continue with an edit "
         "history (queries of all maps, removal and re-adding of any element, use_musical_beat with default and custom "
         "tables, use_notated_beat, set_musical_beat_per_ts, set_quarter_duration) and are compared with a fresh build of "
         "what is left; every map is queried at every integer position of the timeline (plus 2 before and after) as "
@@ -97,7 +116,10 @@ LEVEL_TEXT = ("Lean 4 theorems over an executable model of the six maps as funct
               "tables, all positions, by induction on the table; the pickup rule composed with C02's beat-map model, the "
               "table order derived from C01's timeline model for every edit history) tied to the code by a differential "
               "run over generated parts and edit histories (scalar and vector calls, divs_per_beat, note-array columns, "
-              "iter_all order) and the regenerated MUSICAL_BEATS / CLEF_TO_INT tables.")
+              "iter_all order) and the regenerated MUSICAL_BEATS / CLEF_TO_INT tables.  Round 3: the integer tables are exact "
+              "at every resolution (pickup_start_exact, pickup_maps_exact for all quarter durations), np.round absorbs any "
+              "float noise below half a division while truncation is off by one (round_absorbs_noise, "
+              "pickup_trunc_off_by_one), and the generators sample realistic divisions with exact Fraction expectations.")
 
 INT_MIN = -(2 ** 63)
 GEN_LINE_NONE = True  # clefs without a line (repaired by fixes/C10-11)
@@ -112,7 +134,7 @@ def _sorted(l):
 
 
 def gen_musical(rng):
-    q0 = rng.choice([4, 4, 8, 12, 16, 24])
+    q0 = rng.choice([4, 4, 8, 12, 16, 24]) if rng.random() < 0.7 else pick_resolution(rng)
     nbars = rng.randint(1, 6)
     offset = rng.choice([0, 0, 0, 0, 0, 0, 0, q0, 3, 7])
     sigs = [(rng.choice([2, 3, 4, 4, 5, 6, 6, 7, 9, 12]), rng.choice([2, 4, 4, 8, 8, 16]))]
@@ -146,7 +168,7 @@ def gen_musical(rng):
     elif rng.random() < 0.1 and len(ms) > 1:
         ms = ms[:1] if rng.random() < 0.5 else ms[:-1]
     # key signatures
-    for _ in range(rng.choice([0, 1, 1, 2, 3])):
+    for _ in range(rng.choice([0, 1, 1, 2, 3, 3, 4])):
         kt = rng.choice([offset, offset, rng.randint(offset, end)] + [m[0] for m in ms])
         if all(k[0] != kt for k in ks):
             ks.append([kt, rng.randint(-7, 7), rng.choice(MODES)])
@@ -165,8 +187,108 @@ def gen_musical(rng):
         dirs.append([rng.randint(offset, end), rng.choice([None, 1, nst + 2])])
     qd = []
     if rng.random() < 0.12 and end > offset + 1:
-        qd.append([rng.randint(1, end), rng.choice([q0 * 2, q0 // 2 or 1, 6])])
+        qd.append([rng.randint(1, end), rng.choice([q0 * 2, q0 // 2 or 1, 6, pick_resolution(rng)])])
     return {"gen": "musical", "q0": q0, "qd": qd, "ts": _sorted(ts), "ks": _sorted(ks), "clefs": _sorted(clefs),
+            "ms": _sorted(ms), "notes": _sorted(notes), "words": words, "dirs": dirs, "rev": rng.random() < 0.3}
+
+
+# resolutions: the divisions real scores come with (MIDI-like ppq, MusicXML divisions with tuplets, odd ones);
+# the float error of the two interpolations behind `divs_per_beat` cancels for 1..6, 8, 10, 12, 24 and shows up here
+RES_LARGE = [96, 120, 192, 240, 360, 384, 420, 480, 768, 840, 960, 1024, 10080]
+RES_ODD = [5, 7, 9, 11, 13, 15, 21, 25, 35]
+RES_SMALL = [1, 2, 3, 4, 6, 8, 10, 12, 16, 24, 48]
+RES_SIGS = [(4, 4), (3, 4), (2, 4), (6, 8), (2, 2), (3, 8), (9, 8), (12, 8), (5, 4), (3, 2), (7, 8), (4, 8), (5, 8),
+            (12, 16), (6, 4), (4, 2), (7, 4), (6, 16), (3, 16), (1, 4)]
+
+
+def pick_resolution(rng):
+    r = rng.random()
+    return rng.choice(RES_LARGE if r < 0.55 else RES_ODD if r < 0.9 else RES_SMALL)
+
+
+def gen_resolution(rng):
+    """parts at realistic resolutions: a pickup of an arbitrary number of divs (tuplet fractions of the beat, one div,
+    one div short of the bar, anything), 1..8 full bars, x/2 .. x/16 signatures, later signature and quarter-duration
+    changes at bar lines, notes at tuplet positions inside the pickup.  `lean` parts carry little else (many of them
+    are cheap); the others carry keys, clefs, more notes."""
+    lean = rng.random() < 0.6
+    q0 = pick_resolution(rng)
+    sig = rng.choice(RES_SIGS)
+    for _ in range(6):  # mostly bars of a whole number of divs (a non-integral bar may be rounded either way)
+        if (4 * q0 * sig[0]) % sig[1] == 0 and 4 * q0 * sig[0] // sig[1] >= 2:
+            break
+        if rng.random() < 0.15 and 4 * q0 * sig[0] >= 2 * sig[1]:
+            break
+        sig = rng.choice(RES_SIGS)
+    else:
+        sig = (4, 4)
+    offset = 0 if rng.random() < 0.92 else rng.choice([q0, 1, 7])
+    late_ts = rng.random() < 0.06
+    nbars = rng.randint(1, 8)
+    pickup = lean or rng.random() < 0.75
+    ts, ms, ks, clefs, notes, words, dirs, qd = [], [], [], [], [], [], [], []
+    q, cur, t = q0, sig, offset
+    if not late_ts:
+        ts.append([t, cur[0], cur[1]])
+    beat = Fraction(4 * q0, sig[1])
+    full0 = max(2, int(Fraction(4 * q0 * sig[0], sig[1])))
+    plen = None
+    if pickup:
+        k = rng.random()
+        cands = []
+        if k < 0.5:  # a tuplet fraction of the beat (or of the quarter)
+            for n in (3, 3, 5, 6, 7, 9, 10, 12, 15):
+                for unit in (beat, Fraction(q0), Fraction(full0)):
+                    for m in range(1, 2 * n):
+                        v = unit * m / n
+                        if v.denominator == 1 and 1 <= v < full0:
+                            cands.append(int(v))
+        if cands:
+            plen = rng.choice(cands)
+        elif k < 0.6:
+            plen = rng.choice([1, full0 - 1, max(1, full0 // 2), max(1, full0 - int(beat) if beat >= 1 else 1)])
+        else:
+            plen = rng.randint(1, full0 - 1)
+        ms.append([t, t + plen, rng.choice([0, 1, 1])])
+        t += plen
+    first_num = (ms[0][2] + 1) if ms else 1
+    for i in range(nbars):
+        if i > 0 and rng.random() < (0.1 if lean else 0.25):
+            cur = rng.choice(RES_SIGS)
+            ts.append([t, cur[0], cur[1]])
+        elif i == 1 and late_ts:
+            ts.append([t, cur[0], cur[1]])
+        if i > 0 and rng.random() < (0.06 if lean else 0.15):
+            q = pick_resolution(rng)
+            qd.append([t, q])
+        ln = max(1, int(Fraction(4 * q * cur[0], cur[1])))
+        if rng.random() < 0.06:
+            ln = max(1, ln + rng.choice([-1, 1, -q, q]))
+        ms.append([t, t + ln, None if (i > 0 and rng.random() < 0.05) else first_num + i])
+        t += ln
+    end = t
+    nst = 1 if lean else rng.choice([1, 2, 2, 3])
+    # notes: in the pickup (their rel_onset_div / tot_measure_div come from the corrected start) and elsewhere
+    if plen:
+        notes.append([offset, plen, rng.choice([None, 1, nst]), 1])
+        if plen > 2 and rng.random() < 0.5:
+            notes.append([offset + rng.randint(1, plen - 1), 1, rng.choice([None, 1, nst]), rng.choice([None, 1, 2])])
+    for _ in range(rng.choice([0, 1] if lean else [1, 2, 4, 6])):
+        nt = rng.randint(offset, max(offset, end - 1))
+        notes.append([nt, rng.randint(1, max(1, q0)), rng.choice([None, 1, rng.randint(1, nst + 1)]), rng.choice([None, 1, 2])])
+    if not lean:
+        bounds = [offset] + [m[0] for m in ms]
+        for _ in range(rng.choice([0, 1, 2, 3])):
+            kt = rng.choice(bounds + [rng.randint(offset, end)])
+            if all(k[0] != kt for k in ks):
+                ks.append([kt, rng.randint(-7, 7), rng.choice(MODES)])
+        for _ in range(rng.choice([0, 1, 2, 3])):
+            ct, st = rng.choice(bounds + [rng.randint(offset, end)]), rng.randint(1, nst)
+            if all((c[0], c[1]) != (ct, st) for c in clefs):
+                clefs.append([ct, st, rng.choice(SIGNS), rng.choice([None, 1, 2, 3, 4]), rng.choice([None, 0, 1, -1])])
+        if rng.random() < 0.15:
+            words.append([rng.randint(offset, end), rng.choice([None, 1, nst + 1])])
+    return {"gen": "resolution", "q0": q0, "qd": qd, "ts": _sorted(ts), "ks": _sorted(ks), "clefs": _sorted(clefs),
             "ms": _sorted(ms), "notes": _sorted(notes), "words": words, "dirs": dirs, "rev": rng.random() < 0.3}
 
 
@@ -280,18 +402,41 @@ def gen_history(rng, d):
         elif r < 0.95:
             hist.append(["setmb", gen_table(rng, d)])
         else:
-            hist.append(["qd", rng.randint(0, tmax), rng.choice([1, 2, 3, 4, 6, 8, 12])])
+            hist.append(["qd", rng.randint(0, tmax), rng.choice([1, 2, 3, 4, 6, 8, 12, 7, 120, 480])])
     if hist and hist[0] != ["q"] and rng.random() < 0.7:
         hist.insert(0, ["q"])  # stale state needs a query before the edit
     return hist
 
 
+def restate(rng, d):
+    """a piece that RETURNS to a signature / clef it has used before (A B A): the third element of a kind (and staff)
+    takes the values of the first - a map that merges 'restated' elements by value must not lose the return"""
+    for k, lo, kinds in (("ks", 1, None), ("clefs", 2, None), ("ts", 1, ("adversarial",))):
+        if kinds is not None and d.get("gen") not in kinds:
+            continue
+        rows = d[k]
+        groups = {}
+        for i, e in enumerate(rows):
+            groups.setdefault(e[1] if k == "clefs" else None, []).append(i)
+        for idx in groups.values():
+            if len(idx) >= 3 and rng.random() < 0.6:
+                j = rng.randint(2, len(idx) - 1)
+                a, b, c = rows[idx[j - 2]], rows[idx[j - 1]], rows[idx[j]]
+                if a[lo:] == b[lo:]:
+                    continue
+                c[lo:] = list(a[lo:])
+
+
 def cases(rng, tier):
-    n = {"quick": 150, "thorough": 5000, "search": 3000}.get(tier, 150)
+    n = {"quick": 450, "thorough": 15000, "search": 9000}.get(tier, 450)
     for i in range(n):
-        d = gen_musical(rng) if i % 2 == 0 else gen_adversarial(rng)
+        # of every six cases: one musical, one adversarial, four at realistic resolutions (mostly lean parts)
+        d = gen_musical(rng) if i % 6 == 0 else gen_adversarial(rng) if i % 6 == 1 else gen_resolution(rng)
+        if d["gen"] == "resolution" and tier != "quick" and rng.random() < 0.08 and max(m[1] for m in d["ms"]) <= 6000:
+            d["probe"] = "all"  # every integer position of the timeline, however long
         # the maps of a part are also queried after switching it to musical beats (compound metres count
         # dotted beats): the measure maps must not depend on the beat mode
+        restate(rng, d)
         if rng.random() < 0.3:
             d["musical_mode"] = True
         if rng.random() < 0.35:
@@ -654,6 +799,36 @@ def query_all(getmap, xs, canon0):
     return sc, vec, r, None
 
 
+DENSE = 160  # timelines up to this many positions are queried at every integer position
+
+
+def positions(desc, L, lo, hi):
+    """the positions queried: every integer of lo..hi for a short timeline (or when the case says probe=all); for a
+    long one (large divisions) every time of the timeline and its neighbours, the positions one (notated / musical)
+    beat after 0, the middle of every stretch, and a fixed pseudo-random sample drawn from the description"""
+    if hi - lo <= DENSE or desc.get("probe") == "all":
+        return list(range(lo, hi + 1))
+    import random
+    import zlib
+
+    rng = random.Random(zlib.crc32(json.dumps(desc, sort_keys=True, default=str).encode()))
+    pts = set(range(lo, lo + 4)) | set(range(hi - 3, hi + 1))
+    times = L["times"]
+    for t in times + [e[0] for e in L["qd_table"]]:
+        pts.update((t - 2, t - 1, t, t + 1, t + 2))
+    for a, b in zip(times, times[1:]):
+        pts.add((a + b) // 2)
+        pts.add(rng.randint(a, b))
+    for e in L["ts"][:1] or [[0, 4, 4, 4]]:
+        for q in {L["qd_table"][0][1]}:
+            d = Fraction(4 * q, e[2])
+            for v in (d, d * e[1] / max(1, e[3]), d * e[1]):
+                pts.update((math.floor(v) - 1, math.floor(v), math.ceil(v), math.ceil(v) + 1))
+    for _ in range(24):
+        pts.add(rng.randint(lo, hi))
+    return sorted(x for x in pts if lo <= x <= hi)
+
+
 def part_token(L):
     """the model's input: the part description (not a number computed by the implementation)"""
     times = L["times"]
@@ -702,7 +877,7 @@ def evaluate(desc):
     span_tok = "-" if not times else "%d %d" % (first_t, last_t)
     lo = 0 if not times else max(0, first_t - 2)
     hi = 0 if not times else last_t + 2
-    xs = list(range(lo, hi + 1))
+    xs = positions(desc, L, lo, hi)
     judged = [] if not times else [x for x in xs if first_t <= x <= last_t]
     xs_tok = W.lst(W.i, xs)
     valid = valid_desc(L)
@@ -740,7 +915,8 @@ def evaluate(desc):
             if b0 == b0 and dv == dv:
                 s0, e0 = L["ms"][0][0], L["ms"][0][1]
                 pf, pq = b0 * dv, Fraction(b0) * Fraction(dv)
-                if ((e0 - s0) < pf) != ((e0 - s0) < pq):
+                if ((e0 - s0) < pf) != ((e0 - s0) < pq) and abs((e0 - s0) - pq) > Fraction(1, 4):
+                    # (when the first measure is a full bar up to float noise, either branch gives the same start)
                     stable = False
                 v = Fraction(e0) - pq
                 if abs((v - math.floor(v)) - Fraction(1, 2)) < Fraction(1, 10 ** 6):
@@ -921,6 +1097,18 @@ def evaluate(desc):
                 if mp_s is not None and not mp_s[i].startswith("(%d," % (x - a)):
                     orc.append("measure-consistency: measure_map(%d) = %s but metrical_position_map(%d) = %s" % (x, got, x, mp_s[i]))
 
+    def expected_metrical(t):
+        """acceptable (position, measure length) texts at t by exact arithmetic on the description, None = not judged"""
+        ms = L["ms"]
+        if not (valid and times and ms and measures_ok(L)):
+            return None
+        inside = [k for k, m in enumerate(ms) if m[0] <= t < m[1]]
+        if len(inside) != 1 or not (inside[0] == len(ms) - 1 or ms[inside[0] + 1][0] == ms[inside[0]][1]):
+            return None
+        k = inside[0]
+        starts = {ms[k][0]} if k > 0 else expected_first_start(L, first_t, last_t)
+        return None if starts is None else ["(%d,%d)" % (t - a, ms[k][1] - a) for a in starts]
+
     # ---- note-array columns against the maps at the onsets
     if L["notes"] and valid and not staffless:
         onsets = {n[4]: n[0] for n in L["notes"]}
@@ -961,6 +1149,9 @@ def evaluate(desc):
                     ev.requests.append("mpP %s %s" % (ptok, on_tok))
                     ev.impl.append("[" + ",".join(col_mp) + "]")
                     for i, t, c in zip(ids, on, col_mp):
+                        want = expected_metrical(t)
+                        if want is not None and c not in want:
+                            orc.append("note-array-exact: note %s at %d has (rel_onset_div, tot_measure_div) = %s, its measure gives %s" % (i, t, c, want))
                         if canon_mp(mpm(t)) != c:
                             orc.append("note-array: note %s at %d has metrical columns %s, the map says %s" % (i, t, c, canon_mp(mpm(t))))
                         if int(rows[i]["is_downbeat"]) != (1 if int(rows[i]["rel_onset_div"]) == 0 else 0):
@@ -1021,6 +1212,10 @@ def distribution(descs, results):
     for d in descs:
         c["gen:" + str(d.get("gen", "corpus"))] += 1
         c["measures:%s" % min(len(d["ms"]), 3)] += 1
+        qs = [d["q0"]] + [e[1] for e in d.get("qd", [])]
+        c["divisions:" + ("large" if max(qs) >= 96 else "odd" if any(q in RES_ODD for q in qs) else "small")] += 1
+        if d.get("probe") == "all":
+            c["every_position_of_a_long_timeline"] += 1
         c["ts:%s" % min(len(d["ts"]), 3)] += 1
         c["ks:%s" % min(len(d["ks"]), 3)] += 1
         c["clefs:%s" % min(len(d["clefs"]), 3)] += 1
